@@ -304,7 +304,7 @@ def r7_custom_unit_factor(ctx):
         ctx.unrecognised(UL, "UnitList.append", "factor", str(e))
         return
     want = SymEval().ev(ast.parse("unit.magnitude.value * unit.baseunits.magnitude", mode="eval").body)
-    ctx.check(ta.equals(want), UE, "UnitEnvironment.__init__", "a Quantity definition registers value * unit factor (base units)", detail=ta.key(), expected=want.key())
+    ctx.form(ta.equals(want), UE, "UnitEnvironment.__init__", "a Quantity definition registers value * unit factor (base units)", detail=ta.key(), expected=want.key())
     ctx.check(tb.equals(want), UL, "UnitList.append", "a DIP $unit definition records value * unit factor (base units), like the quantity path", detail=tb.key(), expected=want.key())
     un = ctx.fn(ND + "node_unit.py", "UnitNode.parse")
     s = norm(un).replace("\n", " ")
